@@ -232,36 +232,46 @@ def m4_generation_wiring(ctx) -> None:
 
 
 def m5_union_sub_objects(ctx) -> None:
+    from ..core import pattern as PT
     P = ctx.P
     m = P.need_method("DisjointUnion", "get_sub_objects", own=True)
     f = m.node
     ctx.analysed(m)
     loops = [l for l in f.body if isinstance(l, ast.For)]
-    if len(loops) != 1 or not (isinstance(loops[0].iter, ast.Call) and norm(loops[0].iter.func) == "enumerate"):
+    if len(loops) != 1 or not (isinstance(loops[0].iter, ast.Call) and norm(loops[0].iter.func) == "enumerate" and isinstance(loops[0].target, ast.Tuple)):
         raise AnalysisError("M5: DisjointUnion.get_sub_objects no longer walks enumerate(subobjs)")
     outer = loops[0]
     i = norm(outer.target.elts[0])
     sub = norm(outer.target.elts[1])
-    t = norm(outer)
-    ok_map = f"self._children_param_maps[{i}]" in t
-    ok_set = f"res[{i}] = comb_objs" in t or f"res[{i}] =" in t
-    resets = [n for n in outer.body if isinstance(n, ast.Assign) and norm(n.targets[0]) == f"res[{i}]" and norm(n.value) == "[None]"]
-    inner = [l for l in outer.body if isinstance(l, ast.For)]
-    ok_reset = bool(resets) and bool(inner) and outer.body.index(resets[-1]) > outer.body.index(inner[0])
-    ok_call = inner and norm(inner[0].iter) == f"{sub}(n).items()"
-    if ok_map and ok_set and ok_reset and ok_call:
-        ctx.ok("M5", "union sub-objects: child i's objects at slot i (its own parameter map), every other slot [None], slot reset afterwards")
-    else:
-        bad = [w for w, o in (("parameter map of child i", ok_map), ("objects placed at slot i", ok_set), ("slot reset to [None] after child i", ok_reset), ("child i asked at size n", ok_call)) if not o]
-        ctx.violation("M5", outer, "DisjointUnion.get_sub_objects: " + ", ".join(bad) + " no longer holds: objects of one child are generated together with another's or under the wrong parameters")
-    init = [n for n in f.body if isinstance(n, ast.Assign) and norm(n.targets[0]) == "res"]
-    if init and norm(init[0].value) == "[[None] for _ in range(self.number_of_children)]":
+    init = PT.find_all(f, "_M_res = [[None] for _A_ in range(self.number_of_children)]")
+    res = init[0][1]["_M_res"] if init else None
+    if res:
         ctx.ok("M5", "every slot starts as [None]")
     else:
-        ctx.violation("M5", f, "res must start as one [None] per child", construct="DisjointUnion.get_sub_objects init")
+        ctx.violation("M5", f, "the result slots must start as one [None] per child", construct="DisjointUnion.get_sub_objects init")
+        return
+    inner = [l for l in outer.body if isinstance(l, ast.For)]
+    pm = PT.find_all(outer, "_M_pm = self._children_param_maps[_M_i]", {"_M_i": i})
+    ok_map = bool(pm)
+    ok_call = bool(inner) and PT.match(PT.compile_pattern("_M_sub(n).items()"), inner[0].iter, {"_M_sub": sub}) is not None
+    ok_set = ok_yield = False
+    if inner and ok_call and ok_map and isinstance(inner[0].target, ast.Tuple):
+        par, objs = norm(inner[0].target.elts[0]), norm(inner[0].target.elts[1])
+        ok_set = bool(PT.find_all(inner[0], "_M_res[_M_i] = _M_objs", {"_M_res": res, "_M_i": i, "_M_objs": objs}))
+        ok_yield = bool(PT.find_all(inner[0], "(yield (_M_pm(_M_par), tuple(_M_res)))", {"_M_pm": pm[0][1]["_M_pm"], "_M_par": par, "_M_res": res}))
+    resets = [n for n in outer.body if PT.match(PT.compile_pattern("_M_res[_M_i] = [None]"), n, {"_M_res": res, "_M_i": i}) is not None]
+    ok_reset = bool(resets) and bool(inner) and outer.body.index(resets[-1]) > outer.body.index(inner[0])
+    if ok_map and ok_set and ok_yield and ok_reset and ok_call:
+        ctx.ok("M5", "union sub-objects: child i's objects at slot i (its own parameter map), every other slot [None], slot reset afterwards")
+    else:
+        bad = [w for w, o in (("parameter map of child i", ok_map), ("objects placed at slot i", ok_set), ("(map_i(param), tuple(slots)) yielded", ok_yield),
+                              ("slot reset to [None] after child i", ok_reset), ("child i asked at size n", ok_call)) if not o]
+        ctx.violation("M5", outer, "DisjointUnion.get_sub_objects: " + ", ".join(bad) + " no longer holds: objects of one child are generated together with another's or under the wrong parameters")
     cp = P.need_method("CartesianProduct", "get_sub_objects", own=True)
-    t = norm(cp.node)
-    if "utils.compositions(n, len(subobjs), self.min_sizes, self.max_sizes)" in t and "self.params_value_pairs_combinations(sizes, subobjs)" in t:
+    okc = bool(PT.find_all(cp.node, "utils.compositions(n, len(subobjs), self.min_sizes, self.max_sizes)"))
+    lp = [l for l in walk_local(cp.node) if isinstance(l, ast.For) and isinstance(l.iter, ast.Call) and norm(l.iter.func) == "self.params_value_pairs_combinations"]
+    okp = bool(lp) and len(lp[0].iter.args) == 2 and norm(lp[0].iter.args[1]) == "subobjs"
+    if okc and okp:
         ctx.ok("M5", "product sub-objects: one list per child for every size composition")
     else:
         ctx.violation("M5", cp.node, "CartesianProduct.get_sub_objects must range over compositions(n, len(subobjs), min_sizes, max_sizes) and pair sizes with providers",
